@@ -4,6 +4,7 @@ package c06
 import (
 	"context"
 	"encoding/json"
+	"errors"
 	"fmt"
 	"os"
 	"sort"
@@ -35,6 +36,8 @@ type prober struct {
 	w      *world.World
 	probes int
 	nt     int
+	// lnFailOnce: the Lightning call of this name answers the next request with an error, once
+	lnFailOnce string
 }
 
 // base request with the resources it references
@@ -452,9 +455,31 @@ func (p *prober) semantic(t *rapid.T, b *base) (string, []byte) {
 		raw, _ := json.Marshal(b.body)
 		return "semantic:" + how, raw
 	case "melt":
-		how := rapid.SampledFrom([]string{"underfunded", "spent_input", "unknown_quote", "dup_input_changed_witness", "forged_input", "nut10_secret_input", "nut10_secret_input"}).Draw(t, "sem_how")
+		how := rapid.SampledFrom([]string{"underfunded", "spent_input", "unknown_quote", "dup_input_changed_witness", "forged_input", "nut10_secret_input", "nut10_secret_input", "own_invoice_node_lookup_fails", "own_invoice_node_lookup_fails"}).Draw(t, "sem_how")
 		ins := b.body["inputs"].([]any)
 		switch how {
+		case "own_invoice_node_lookup_fails":
+			// a perfectly good melt of the mint's own invoice (settled internally, no payment goes out) whose one
+			// Lightning call - the invoice lookup - fails: the mint answers with an error, and that must be all
+			var total uint64
+			for _, in := range b.inputs {
+				total += in.Amount
+			}
+			fee := w.FeeFor(b.inputs)
+			if total <= fee {
+				return "", nil
+			}
+			mq, err := w.RequestMintQuote(total-fee, nil)
+			if err != nil {
+				return "", nil
+			}
+			q, err := w.RequestMeltQuote(mq.Request, 0)
+			if err != nil {
+				return "", nil
+			}
+			b.meltQ, b.mintQ = q, mq
+			b.body["quote"] = q.ID
+			p.lnFailOnce = "InvoiceStatus"
 		case "nut10_secret_input":
 			how += ":" + nut10Input(t, ins)
 		case "underfunded":
@@ -548,6 +573,22 @@ func (p *prober) probe(t *rapid.T) {
 	}
 	before := w.TakeSnapshot(extraYs, extraBs, mq, meq)
 	w.LN.PayScript = []lnmodel.PayAnswer{lnmodel.PaySuccess}
+	if name := p.lnFailOnce; name != "" {
+		p.lnFailOnce = ""
+		fired := false
+		prev := w.LN.Hook
+		w.LN.Hook = func(c *lnmodel.Call) error {
+			if c.Method == name && !fired {
+				fired = true
+				return errors.New("lnmodel: MARKER-LN-INTERNAL node unreachable")
+			}
+			if prev != nil {
+				return prev(c)
+			}
+			return nil
+		}
+		defer func() { w.LN.Hook = prev }()
+	}
 	resp := httpx.Do(w.Handler(), b.method, b.path, raw, ct)
 	w.LN.PayScript = nil
 	p.probes++
